@@ -589,6 +589,20 @@ func (env *Env) call(n *Node) *Value {
 		}
 		a0 := e.comp(env.f.entry, "alloc", arrSort(sBool))
 		return term(or(eq(t, "0"), not(sel(a0, t))), sBool, boolT)
+	case "exempt": // exempt(x): object x is not subject to lock discipline in this call: allocated by the call, or thread-private
+		x := arg(0)
+		ent := e.topEntry
+		if ent == nil {
+			ent = env.f.entry
+		}
+		if ent == nil {
+			ent = env.old
+		}
+		if ent == nil {
+			ent = env.st
+		}
+		a0 := e.comp(ent, "alloc", arrSort(sBool))
+		return term(or(not(sel(a0, x.T)), sel(e.unshComp(), x.T)), sBool, boolT)
 	case "allocated":
 		x := arg(0)
 		return term(sel(e.comp(env.st, "alloc", arrSort(sBool)), x.T), sBool, boolT)
